@@ -383,6 +383,133 @@ Section Inner.
       rng_stream {| r_ipos := r_start; r_cur := r_start |} = take (r_end - r_start) (drop (N.min r_start (nlen data)) data).
     Proof. reflexivity. Qed.
   End Rng.
+  (* ================= ZeroCopyReader ================= *)
+  Section Zc.
+    Variable z_cap : N.
+    Notation zstep := (zc_op data chunk z_cap).
+    Definition zc_stream (st : zc) : list N := z_buf st ++ inner_rest (z_ipos st).
+
+    Lemma zc_take_ok k st bs st' : zc_take k st = (bs, st') -> zc_stream st = bs ++ zc_stream st'.
+    Proof.
+      unfold zc_take. intros H. inversion H; subst. unfold zc_stream. cbn [z_buf z_ipos].
+      rewrite app_assoc, take_drop. reflexivity.
+    Qed.
+    Lemma zc_fill_from_ok st k st' : zc_fill_from data chunk z_cap st = (k, st') -> zc_stream st' = zc_stream st.
+    Proof.
+      unfold zc_fill_from. destruct (_ =? 0).
+      - intros H; inversion H; subst. reflexivity.
+      - destruct (inner_read _ _) as [bs ip] eqn:Hr. intros H; inversion H; subst.
+        unfold zc_stream. cbn [z_buf z_ipos]. rewrite (inner_read_spec _ _ _ _ Hr), app_assoc. reflexivity.
+    Qed.
+    Lemma zc_ensure_ok fuel : forall len st, zc_stream (zc_ensure data chunk z_cap fuel len st) = zc_stream st.
+    Proof.
+      induction fuel as [|f IH]; intros len st; cbn [zc_ensure]; [reflexivity|].
+      destruct (_ && _); [|reflexivity]. destruct (_ =? z_cap); [reflexivity|].
+      destruct (zc_fill_from data chunk z_cap st) as [k s1] eqn:Hf. apply zc_fill_from_ok in Hf.
+      destruct (k =? 0); [exact Hf|]. rewrite IH. exact Hf.
+    Qed.
+    Lemma zc_ens_ok len st : zc_stream (zc_ens data chunk z_cap len st) = zc_stream st.
+    Proof. apply zc_ensure_ok. Qed.
+    Lemma zc_read_ok n st out st' :
+      zc_read data chunk z_cap n st = (Some out, st') -> zc_stream st = out ++ zc_stream st'.
+    Proof.
+      unfold zc_read. destruct (n =? 0); [intros H; inversion H; subst; reflexivity|].
+      destruct (N.ltb_spec 0 (nlen (z_buf st))) as [Hpos|Hz].
+      - destruct (zc_take _ st) as [bs s1] eqn:Ht. intros H; inversion H; subst. eapply zc_take_ok; exact Ht.
+      - assert (Hnil : z_buf st = []) by (apply nlen_nil; lia).
+        destruct (_ <=? n).
+        + destruct (inner_read _ _) as [bs ip] eqn:Hr. intros H; inversion H; subst.
+          unfold zc_stream. cbn [z_buf z_ipos]. rewrite Hnil. cbn [app]. apply inner_read_spec in Hr. exact Hr.
+        + set (st1 := if z_eof st then st else _).
+          assert (Hs : zc_stream st1 = zc_stream st).
+          { unfold st1. destruct (z_eof st); [reflexivity|].
+            destruct (zc_fill_from data chunk z_cap st) as [k s1] eqn:Hf. apply zc_fill_from_ok in Hf.
+            destruct (k =? 0); exact Hf. }
+          destruct (_ =? 0).
+          * intros H; inversion H; subst. symmetry. exact Hs.
+          * destruct (zc_take _ st1) as [bs s2] eqn:Ht. intros H; inversion H; subst.
+            rewrite <- Hs. eapply zc_take_ok; exact Ht.
+    Qed.
+    Lemma zc_skip_inner_ok fuel : forall len ipos ip,
+      zc_skip_inner data chunk fuel len ipos = (true, ip) ->
+      exists ch, nlen ch = len /\ inner_rest ipos = ch ++ inner_rest ip.
+    Proof.
+      induction fuel as [|f IH]; intros len ipos ip H; cbn [zc_skip_inner] in H.
+      - destruct (N.eqb_spec len 0); inversion H; subst. exists []. split; reflexivity.
+      - destruct (N.eqb_spec len 0).
+        + inversion H; subst. exists []. split; reflexivity.
+        + destruct (inner_read ipos (N.min len 8192)) as [bs ip1] eqn:Hr.
+          destruct (nlen bs =? 0); [discriminate|].
+          assert (Hle : nlen bs <= len).
+          { unfold ModelReader.inner_read in Hr. inversion Hr; subst. unfold take.
+            rewrite nlen_length, firstn_length. destruct (chunk =? 0); lia. }
+          apply IH in H. destruct H as [ch [Hn Hs]]. exists (bs ++ ch). split; [rewrite nlen_app; lia|].
+          rewrite (inner_read_spec _ _ _ _ Hr), Hs, app_assoc. reflexivity.
+    Qed.
+
+    Definition zc_streaming (c : N) : bool :=
+      (c =? 0) || (c =? 1) || (c =? 3) || (c =? 4) || (c =? 12) || (c =? 16) || (c =? 17).
+
+    Lemma zc_op_ok c a st o st' :
+      zc_streaming c = true -> zstep c a st = (o, st') -> o <> OErr ->
+      exists ch, explains1 a o ch /\ zc_stream st = ch ++ zc_stream st'.
+    Proof.
+      intros Hc H Ho. unfold zc_streaming in Hc.
+      repeat rewrite orb_true_iff in Hc. repeat rewrite N.eqb_eq in Hc. unfold zc_op in H.
+      destruct Hc as [[[[[[->| ->]| ->]| ->]| ->]| ->]| ->]; cbv iota beta in H.
+      - destruct (zc_read _ _ _ _ _) as [[r|] s1] eqn:Hr; inversion H; subst; [|congruence].
+        exists r. split; [reflexivity|]. eapply zc_read_ok; exact Hr.
+      - destruct (read_exact _ _ _) as [[r|] s1] eqn:Hr; inversion H; subst; [|congruence].
+        exists r. split; [reflexivity|]. eapply (read_exact_ok _ zc_stream); [|exact Hr].
+        intros n0 s0 bs s2 Hx. eapply zc_read_ok; exact Hx.
+      - pose proof (zc_ens_ok (Z.to_N a) st) as He. destruct (_ <=? _).
+        + destruct (zc_take _ _) as [bs s2] eqn:Ht. inversion H; subst. exists bs. split; [reflexivity|].
+          rewrite <- He. eapply zc_take_ok; exact Ht.
+        + inversion H; subst. exists []. split; [reflexivity|]. symmetry. exact He.
+      - pose proof (zc_ens_ok (Z.to_N a) st) as He. inversion H; subst. exists []. split; [reflexivity|]. symmetry. exact He.
+      - destruct (zc_take (N.min (nlen (z_buf st)) (Z.to_N a)) st) as [bs s1] eqn:Ht.
+        destruct (zc_skip_inner _ _ _ _ _) as [ok ip] eqn:Hk.
+        destruct ok; inversion H; subst; [|congruence].
+        apply zc_skip_inner_ok in Hk. destruct Hk as [ch [Hn Hs]].
+        pose proof (zc_take_ok _ _ _ _ Ht) as Hst.
+        assert (Hbs : nlen bs = N.min (nlen (z_buf st)) (Z.to_N a)).
+        { unfold zc_take in Ht. inversion Ht; subst. apply nlen_take. lia. }
+        exists (bs ++ ch). split; [cbn [explains1]; rewrite nlen_app; lia|].
+        rewrite Hst. rewrite <- app_assoc. f_equal.
+        unfold zc_stream. cbn [z_buf z_ipos].
+        destruct (N.eqb_spec (Z.to_N a - N.min (nlen (z_buf st)) (Z.to_N a)) 0) as [Hz|Hnz].
+        + (* nothing skipped from the inner stream *)
+          rewrite Hz in Hn. apply nlen_nil in Hn. subst ch. cbn [app] in *. rewrite Hs. reflexivity.
+        + (* the buffer was emptied first *)
+          assert (Hnil : z_buf s1 = []).
+          { unfold zc_take in Ht. inversion Ht; subst. cbn [z_buf]. apply drop_all. lia. }
+          rewrite Hnil. cbn [app]. exact Hs.
+      - pose proof (zc_ens_ok (Z.to_N a) st) as He. inversion H; subst. exists []. split; [reflexivity|]. symmetry. exact He.
+      - pose proof (zc_ens_ok (Z.to_N a) st) as He. destruct (_ <=? _).
+        + destruct (zc_take _ _) as [bs s2] eqn:Ht. inversion H; subst. exists bs. split; [reflexivity|].
+          rewrite <- He. eapply zc_take_ok; exact Ht.
+        + destruct (zc_read _ _ _ _ _) as [[r|] s1] eqn:Hr; inversion H; subst; [|congruence].
+          exists r. split; [reflexivity|]. rewrite <- He. eapply zc_read_ok; exact Hr.
+    Qed.
+
+    Theorem zc_reads_concat_proof :
+      forall ops st os st',
+        forallb (fun p => zc_streaming (fst p)) ops = true ->
+        run_ops zstep ops st = (os, st') -> ~ In OErr os ->
+        exists chs, explains ops os chs /\ zc_stream st = concat chs ++ zc_stream st'.
+    Proof.
+      induction ops as [|[c a] ops IH]; intros st os st' Hall H Hne; cbn [run_ops] in H.
+      - inversion H; subst. exists []. split; [exact I|reflexivity].
+      - cbn [forallb fst] in Hall. apply andb_true_iff in Hall. destruct Hall as [Hc Hall].
+        destruct (zstep c a st) as [o s1] eqn:Hs.
+        destruct (run_ops zstep ops s1) as [os1 s2] eqn:Hr.
+        inversion H; subst.
+        destruct (zc_op_ok _ _ _ _ _ Hc Hs) as [ch [He Hst]]; [intros ->; apply Hne; left; reflexivity|].
+        destruct (IH _ _ _ Hall Hr) as [chs [Hex Hrest]]; [intros Hin; apply Hne; right; exact Hin|].
+        exists (ch :: chs). split; [split; assumption|].
+        cbn [concat]. rewrite <- app_assoc, <- Hrest. exact Hst.
+    Qed.
+  End Zc.
 End Inner.
 
 (* a fresh buffered reader owes its caller the whole inner stream *)
